@@ -1,6 +1,7 @@
 import AsyncVerif.Proofs.AggTools
 import AsyncVerif.Proofs.SetDict
 import AsyncVerif.Proofs.FaithfulTools
+import AsyncVerif.Proofs.ChainCancel
 /-!
 # C06 — errors from sources/callables surface unchanged where the stdlib would raise
 
@@ -73,6 +74,14 @@ theorem C06_batched (n : Nat) (strict : Bool) (s fuel : Nat) : Faithful (Impl.ba
 
 theorem C06_chain_iterator (srcs : List Nat) (fuel : Nat) : Faithful (Impl.chainIter srcs fuel) :=
   Impl.faithful_chainIter srcs fuel
+
+/-- the `chain` handle (`Impl.chain`: advancing delegates to `_chain_iterator`, the consumer's `aclose()`
+    also closes every owned iterator): in every world a fault of an input, or an exception thrown in by
+    the consumer, is the last visible event and the run ends with exactly that exception.  The handle
+    differs from its iterator only when the consumer closes it, and that close is invisible
+    (`chain_handle_twin`), so faithfulness transfers. -/
+theorem C06_chain (srcs : List Nat) (fuel : Nat) : Faithful (Impl.chain srcs fuel) :=
+  Impl.faithful_chain srcs fuel
 
 theorem C06_compress (d sel fuel : Nat) : Faithful (Impl.compress d sel fuel) := by
   unfold Impl.compress
@@ -159,6 +168,12 @@ private def w0 : World :=
     calls := fun _ => 0, cons := .run 0 .exhaust, vis := [], rel := [] }
 
 example : (Impl.filter (some 0) 0 10 w0).1 = .error (.user 7) := by rfl
+
+/-- `chain` over two such sources: the fault of the first one surfaces at once, as the last visible event -/
+example : (Impl.chain [0, 1] 10 w0).1 = .error (.user 7) := by rfl
+example : ∃ pre ev, (Impl.chain [0, 1] 10 w0).2.vis = w0.vis ++ pre ++ [ev] ∧ isFault 7 ev = true
+    ∧ ∀ x ∈ pre, anyFault x = false :=
+  C06_surfaces_at_once (C06_chain [0, 1] 10) w0 7 rfl
 
 theorem C06_set (s fuel : Nat) : Faithful (Impl.set s fuel) := by
   unfold Impl.set Std.set; faith [Std.faithful_setLoop s fuel]
